@@ -364,7 +364,7 @@ LIB_THEOREMS = {
     'C11': ['ProjAlg.rh_gl_near', 'ProjAlg.rh_gl_far', 'ProjAlg.lh_near', 'ProjAlg.inf_rev_lh_depth', 'ProjAlg.fov_edge_x', 'ProjAlg.ortho_x_left', 'ProjAlg.ortho_rh_gl_far'],
     'C03': ['AlgR.R_field', 'AlgR.Rlit32_1', 'AlgR.Rlit64_m2'],
     'C10': ['AlgR.Rlit32_2', 'AlgR.R_cos_opp'],
-    'C05': ['QuatAlg.rot_compose', 'QuatAlg.conj_hprod', 'AlgR.Rlit64_1'],
+    'C05': ['QuatAlg.rot_compose', 'QuatAlg.conj_hprod', 'QuatAlg.rot_neg', 'AlgR.Rlit64_1', 'FromMatAlg.from_mat_branch_x', 'FromMatAlg.from_mat_branch_y', 'FromMatAlg.from_mat_branch_z', 'FromMatAlg.from_mat_branch_w', 'FromMatAlg.cond_x', 'FromMatAlg.cond_w'],
     'C12': ['InterpAlg.lerp_at_0', 'InterpAlg.lerp_at_1', 'InterpAlg.lerp_between', 'InterpAlg.u1_orth_input', 'InterpAlg.u2_orth_input'],
     'C18': ['Sem.IntStd_IEEE', 'Sem.LitStd_IEEE'], 'C08': ['Sem.IntStd_IEEE', 'Sem.LitStd_IEEE'], 'C15': ['Sem.IntStd_IEEE'], 'C20': ['Sem.IntStd_IEEE', 'Sem.LitStd_IEEE'], 'C01': ['Sem.IntStd_IEEE', 'Sem.LitStd_IEEE', 'FloatTricks.floor_lane_correct', 'FloatTricks.ceil_lane_correct', 'FloatTricks.trunc_lane_correct', 'FloatTricks.round_lane_correct', 'FloatTricks.not_sign_std', 'FloatTricks.rem_floored_refuted'],
 }
